@@ -76,9 +76,7 @@ func (c *Context) SpawnChild(p Producer, name string, opts ...OptFunc) *PID {
 	}
 	proc := newProcess(c.engine, options)
 	proc.context.parentCtx = c
-	// The child is entered before it is spawned: it may stop (and remove
-	// itself from this map) before SpawnProc returns.
-	c.children.Set(proc.PID().ID, proc.PID())
+	// The registry enters the child in our child map when it registers it.
 	c.engine.SpawnProc(proc)
 
 	return proc.PID()
